@@ -61,7 +61,7 @@ Definition reserved (x : string) : Prop := x = ".pc" \/ x = ".stack".
 
 Definition wf_proc (p : proc) : Prop :=
   NoDup (p_vars p) /\ (forall x, In x (p_vars p) -> ~ reserved x) /\
-  (forall x v, In (x, v) (p_pre p) -> In x (p_vars p)).
+  (forall x e, In (x, e) (p_pre p) -> In x (p_vars p) /\ forall y, In y (psrc e) -> In y (p_vars p)).
 
 Definition wf_table (t : table) : Prop :=
   forall n p, find_proc (t_procs t) n = Some p -> wf_proc p.
@@ -146,22 +146,62 @@ Proof.
       * intros y Hy. apply Hk, Wk. rewrite Hres. apply Ek; auto.
 Qed.
 
+Lemma peval_impl_spec : forall s e s1 v, peval_impl s e = Some (s1, v) ->
+  peval (cur s) e = Some v /\ (forall y, cur s1 y = cur s y) /\ (forall y, oldv s1 y = oldv s y) /\
+  (forall y, sres s y <> None -> sres s1 y <> None) /\ (forall y, sres s1 y <> None -> sres s y <> None).
+Proof.
+  intros s e s1 v H. destruct e as [w|y|y k]; cbn in H |- *.
+  - inversion H; subst. auto.
+  - destruct (iread_spec _ _ _ _ H) as (Hv & Hr & _). unfold cur, oldv. rewrite Hr. subst v. repeat split; auto.
+  - destruct (iread s y) as [[s2 w]|] eqn:Er; [|discriminate].
+    destruct (iread_spec _ _ _ _ Er) as (Hv & Hr & _). subst w.
+    destruct (padd (cur s y) k) as [u|] eqn:Ep; [|discriminate]. inversion H; subst.
+    unfold cur, oldv. rewrite Hr. repeat split; auto.
+Qed.
+
+(* agreement on a set of variables that contains everything the initialisers read *)
+Lemma set_all_agree : forall (P : string -> Prop) ws f g f',
+  (forall y, P y -> f y = g y) ->
+  (forall x e, In (x, e) ws -> forall y, In y (psrc e) -> P y) ->
+  set_all f ws = Some f' ->
+  exists g', set_all g ws = Some g' /\ forall y, P y -> f' y = g' y.
+Proof.
+  induction ws as [|[x e] r IH]; intros f g f' Hfg Hsrc H; cbn in H |- *.
+  - inversion H; subst. eauto.
+  - assert (He : peval g e = peval f e).
+    { destruct e as [w|y|y k]; cbn; auto; rewrite (Hfg y); auto; apply (Hsrc x _ (or_introl eq_refl)); cbn; auto. }
+    rewrite He. destruct (peval f e) as [v|]; [|discriminate].
+    apply (IH (vset f x v) (vset g x v) f'); auto.
+    + intros y Hy. unfold vset. destruct (String.eqb y x); auto.
+    + intros x0 e0 Hin. apply (Hsrc x0 e0). now right.
+Qed.
+
+Lemma set_all_other : forall ws f f' y, set_all f ws = Some f' -> (forall e, ~ In (y, e) ws) -> f' y = f y.
+Proof.
+  induction ws as [|[x e] r IH]; intros f f' y H Hn; cbn in H.
+  - inversion H; subst. reflexivity.
+  - destruct (peval f e) as [v|]; [|discriminate].
+    rewrite (IH _ _ y H) by (intros e0 Hin; apply (Hn e0); now right).
+    apply vset_other. intros ->. apply (Hn e). now left.
+Qed.
+
 Lemma write_all_spec : forall ws s s', write_all s ws = Some s' ->
-  (forall y, cur s' y = set_all (cur s) ws y) /\ (forall y, oldv s' y = oldv s y) /\
+  exists f', set_all (cur s) ws = Some f' /\ (forall y, cur s' y = f' y) /\ (forall y, oldv s' y = oldv s y) /\
   (forall y, sres s y <> None -> sres s' y <> None).
 Proof.
-  induction ws as [|[x v] r IH]; intros s s' H; cbn in H.
-  - inversion H; subst. auto.
-  - destruct (iwrite s x v) as [s1|] eqn:Ew; [|discriminate].
+  induction ws as [|[x e] r IH]; intros s s' H; cbn in H |- *.
+  - inversion H; subst. eauto.
+  - destruct (peval_impl s e) as [[s1 v]|] eqn:Ee; [|discriminate].
+    destruct (peval_impl_spec _ _ _ _ Ee) as (Hp & Hc1 & Ho1 & Hk1 & _). rewrite Hp.
+    destruct (iwrite s1 x v) as [s2|] eqn:Ew; [|discriminate].
     destruct (iwrite_spec _ _ _ _ Ew) as (Wc & Wo & Wd & Wne & Wk & _).
-    destruct (IH s1 s' H) as (Hc & Ho & Hk). split; [|split].
-    + intros y. rewrite Hc. cbn.
-      assert (Hext : forall ws f g, (forall z, f z = g z) -> set_all f ws y = set_all g ws y).
-      { induction ws as [|[z w] ws IHw]; intros f g Hfg; cbn; auto.
-        apply IHw. intros u. unfold vset. destruct (String.eqb u z); auto. }
-      apply Hext. exact Wc.
-    + intros y. rewrite Ho. apply Wo.
-    + intros y Hy. apply Hk, Wk, Hy.
+    destruct (IH s2 s' H) as (f2 & Hs & Hc & Ho & Hk).
+    destruct (set_all_agree (fun _ => True) r (cur s2) (vset (cur s) x v) f2) as (g' & Hg & Hag); auto.
+    { intros y _. rewrite Wc. unfold vset. destruct (String.eqb y x); auto. }
+    exists g'. split; auto. split; [|split].
+    + intros y. rewrite Hc. apply Hag. exact Logic.I.
+    + intros y. rewrite Ho, Wo. apply Ho1.
+    + intros y Hy. apply Hk, Wk, Hk1, Hy.
 Qed.
 
 Lemma bind_args_other : forall vars args f y, ~ In y vars -> bind_args f vars args y = f y.
@@ -170,24 +210,12 @@ Proof.
   rewrite IH; [|intros Hin; apply H; now right]. apply vset_other. intros ->. apply H. now left.
 Qed.
 
-Lemma set_all_other : forall ws f y, (forall v, ~ In (y, v) ws) -> set_all f ws y = f y.
-Proof.
-  induction ws as [|[x v] r IH]; intros f y H; cbn; auto.
-  rewrite IH; [|intros w Hin; apply (H w); now right]. apply vset_other. intros ->. apply (H v). now left.
-Qed.
-
 Lemma reserved_pc : reserved ".pc". Proof. now left. Qed.
 Lemma reserved_stack : reserved ".stack". Proof. now right. Qed.
 
 Lemma bind_args_local : forall vars args f f' x, f x = f' x -> bind_args f vars args x = bind_args f' vars args x.
 Proof.
   induction vars as [|z r IH]; intros args f f' x H; cbn; auto. destruct args; auto.
-  apply IH. unfold vset. destruct (String.eqb x z); auto.
-Qed.
-
-Lemma set_all_local : forall ws f f' x, f x = f' x -> set_all f ws x = set_all f' ws x.
-Proof.
-  induction ws as [|[z w] r IH]; intros f f' x H; cbn; auto.
   apply IH. unfold vset. destruct (String.eqb x z); auto.
 Qed.
 
@@ -211,12 +239,11 @@ Proof.
   destruct (iwrite s2 ".stack" (VT (VR frame :: map VR (v_stack g)))) as [s3|] eqn:Ew; [|discriminate].
   destruct (iwrite_spec _ _ _ _ Ew) as (Wc & Wo & Wd & Wne & Wk & _).
   destruct (write_all s3 (p_pre p)) as [s4|] eqn:Ewa; [|discriminate].
-  destruct (write_all_spec _ _ _ Ewa) as (Ac & Ao & Ak).
+  destruct (write_all_spec _ _ _ Ewa) as (f4 & Hs4 & Ac & Ao & Ak).
   unfold goto_impl in H. destruct (has_label t (p_label p)); [|discriminate].
   destruct (iwrite_spec _ _ _ _ H) as (Gc & Go & Gd & Gne & Gk & _).
-  eexists. split; [reflexivity|].
-  assert (Hnpre : forall y, reserved y -> forall v, ~ In (y, v) (p_pre p)).
-  { intros y Hy v Hin. apply (Hres y); auto. eapply Hpre; eauto. }
+  assert (Hnpre : forall y, reserved y -> forall e, ~ In (y, e) (p_pre p)).
+  { intros y Hy e Hin. apply (Hres y); auto. eapply Hpre; eauto. }
   assert (Hnvars : forall y, reserved y -> ~ In y (p_vars p)).
   { intros y Hy Hin. apply (Hres y); auto. }
   assert (Hframe : frame = frame_of (VS ret) (p_vars p) (v_vars g)).
@@ -224,14 +251,19 @@ Proof.
     rewrite Hc1. rewrite Rv; auto. }
   assert (Hs1pc : sres s1 ".pc" <> None) by (rewrite Hres1; auto).
   assert (Hs1st : sres s1 ".stack" <> None) by (rewrite Hres1; auto).
+  (* the initialisers read only the procedure's own variables, on which the two sides agree *)
+  destruct (set_all_agree (fun y => ~ reserved y) (p_pre p) (cur s3) (bind_args (v_vars g) (p_vars p) args) f4)
+    as (g4 & Hg4 & Hag); auto.
+  { intros y Hy. rewrite Wc, vset_other by (intros ->; apply Hy, reserved_stack).
+    rewrite Hc2. apply bind_args_local. rewrite Hc1. apply Rv; auto. }
+  { intros x e Hin y Hy. apply Hres. eapply Hpre; eauto. }
+  rewrite Hg4. eexists. split; [reflexivity|].
   split; [|split; [|split; [|split; [|split]]]]; cbn [v_vars v_stack v_pc].
   - intros x Hx.
     rewrite Gc, vset_other by (intros ->; apply Hx, reserved_pc).
-    rewrite Ac. apply set_all_local.
-    rewrite Wc, vset_other by (intros ->; apply Hx, reserved_stack).
-    rewrite Hc2. apply bind_args_local. rewrite Hc1. apply Rv; auto.
+    rewrite Ac. apply Hag; auto.
   - rewrite Gc, vset_other by discriminate.
-    rewrite Ac, set_all_other by (apply Hnpre, reserved_stack).
+    rewrite Ac, (set_all_other _ _ _ ".stack" Hs4) by (apply Hnpre, reserved_stack).
     rewrite Wc, vset_same. rewrite Hframe. reflexivity.
   - rewrite Gc, vset_same. reflexivity.
   - apply Gk, Ak, Wk, Hk2, Hs1pc.
